@@ -138,7 +138,15 @@ def handle (j : Json) : Json :=
   | some spec, some sec, some glob, some dodo =>
     let ini := mergeCfg glob sec
     let env := envOfJson j
-    let argv := (jstrs j "argv").map s2l
+    let argvRaw := (jstrs j "argv").map s2l
+    -- "strip": the words pass DoitMain.process_args first (name=value words removed; '' crashes)
+    let stripped := if jbool j "strip" then stripVars argvRaw else .ok argvRaw
+    let argv := match stripped with | .ok a => a | .error _ => argvRaw
+    if !stripped.toBool then
+      Json.mkObj [("wf", Json.bool (WF spec)), ("pre_ok", Json.bool true),
+                  ("res", Json.mkObj [("err", Json.str "crash")]), ("setup", Json.mkObj [("err", Json.str "crash")]),
+                  ("exit", toJson (1 : Nat))]
+    else
     let names := dedup (spec.map (·.name) ++ dodo.map (·.1))
     let wf := Json.bool (WF spec)
     match jstr j "op" with
